@@ -309,6 +309,11 @@ func (n *node) handle(m wireMsg) {
 	now := time.Now()
 	// application data: must come from the channel we are bound to, which must be accepted
 	n.mu.Lock()
+	for _, d := range n.got {
+		if d.plain == string(out) && len(n.problems) < 5 {
+			n.problems = append(n.problems, fmt.Sprintf("%s: plaintext %q delivered a second time (message %s)", n.name, truncate(string(out)), msgName(m.data)))
+		}
+	}
 	n.got = append(n.got, delivery{string(out), now})
 	n.mu.Unlock()
 	if k < 0 {
